@@ -482,6 +482,27 @@ fn gp(fam: Family, t: Tier) -> crate::groups::GroupProfile {
         p_nest: 14,
     }
 }
+/// group-history share of the cross-cutting properties
+#[cfg(feature = "has-alloc")]
+pub fn group_share(prop: &str, fam: Family, t: Tier) -> crate::groups::GroupProfile {
+    let mut g = gp(fam, t);
+    g.max_ops = if t == Tier::Quick { 30 } else { 80 };
+    match prop {
+        "C02" => {
+            g.p_drop = 6;
+            g.base.p_nodrain = 40;
+            g.base.p_never = 20;
+        }
+        "C03" => g.base.p_stale = 110,
+        "C16" => {
+            g.base.p_spurious_heavy = 120;
+            g.base.p_stale = 90;
+        }
+        "C20" => g.base.p_never = 90,
+        _ => {}
+    }
+    g
+}
 #[cfg(feature = "has-alloc")]
 fn gp11(t: Tier) -> crate::groups::GroupProfile {
     gp(Family::FutGroup, t)
